@@ -2410,9 +2410,15 @@ func (a *Agent) handleControlRequest(peerID identity.AgentID, frame *protocol.Fr
 			return
 		}
 
-		// Track this forwarded request so we can route the response back
+		// Track this forwarded request so we can route the response back.
+		// Every agent numbers its own requests 1, 2, 3, ..., so the ID chosen by
+		// the requester is not unique here: forward under an ID from our own
+		// counter (shared with the requests we originate) and translate back
+		// when the response arrives.
 		a.controlMu.Lock()
-		a.forwardedControl[req.RequestID] = &forwardedControlRequest{
+		a.nextControlID++
+		fwdID := a.nextControlID
+		a.forwardedControl[fwdID] = &forwardedControlRequest{
 			RequestID:  req.RequestID,
 			SourcePeer: peerID,
 			CreatedAt:  time.Now(),
@@ -2427,7 +2433,7 @@ func (a *Agent) handleControlRequest(peerID identity.AgentID, frame *protocol.Fr
 			"source_peer", peerID.ShortString())
 
 		fwdReq := &protocol.ControlRequest{
-			RequestID:   req.RequestID,
+			RequestID:   fwdID,
 			ControlType: req.ControlType,
 			TargetAgent: req.TargetAgent,
 			Path:        remainingPath,
@@ -2444,7 +2450,7 @@ func (a *Agent) handleControlRequest(peerID identity.AgentID, frame *protocol.Fr
 				logging.KeyPeerID, nextHop.ShortString(),
 				logging.KeyError, err)
 			a.controlMu.Lock()
-			delete(a.forwardedControl, req.RequestID)
+			delete(a.forwardedControl, fwdID)
 			a.controlMu.Unlock()
 			a.sendControlResponse(peerID, req.RequestID, req.ControlType, false, []byte("failed to forward: "+err.Error()))
 		}
@@ -2523,6 +2529,8 @@ func (a *Agent) handleControlResponse(peerID identity.AgentID, frame *protocol.F
 			"to", forwarded.SourcePeer.ShortString(),
 			"request_id", resp.RequestID)
 
+		// Restore the ID the source peer used for this request
+		resp.RequestID = forwarded.RequestID
 		responseFrame := &protocol.Frame{
 			Type:     protocol.FrameControlResponse,
 			StreamID: protocol.ControlStreamID,
